@@ -15,8 +15,12 @@ def matches(c):
 
 LEVEL_TEXT = ("Lean theorems: parse(write a) = a (names, order, residues, length, detected alphabet) for every "
               "representable alignment, every wrap width w > 0, every number of rows and every length, by induction "
-              "over rows and over chunks - complete for FASTA (roundtrip_fasta), Stockholm (roundtrip_stockholm) and Nexus (roundtrip_nexus, "
-              "incl. decimal print/parse of the header counts and the datatype/alphabet hand-over); executable writer + parser models of all five "
+              "over rows and over chunks - complete for FASTA (roundtrip_fasta), Stockholm (roundtrip_stockholm), Nexus (roundtrip_nexus, "
+              "incl. decimal print/parse of the header counts and the datatype/alphabet hand-over), Phylip (roundtrip_phylip: all 8 "
+              "combinations of strict / one-line / no-block; roundtrip_phylip_widths: every line width and group width > 0, by induction "
+              "over the interleaved blocks) and Clustal (roundtrip_clustal: any number of blocks of 50 with cumulative counts and "
+              "conservation lines, any version text without a line break) and streams of several Phylip alignments (phylip_multi); "
+              "executable writer + parser models of all five "
               "formats (Phylip with its 8 option combinations, multi-alignment streams and auto-detection as folds over them) "
               "tied to /repo by constant regeneration (line / block widths) and differential correspondence of writer bytes "
               "and parser results; the round-trip predicate is evaluated on the implementation for every format x option, "
@@ -24,13 +28,14 @@ LEVEL_TEXT = ("Lean theorems: parse(write a) = a (names, order, residues, length
               "false for the unrepaired parser (roundtrip_nexus_counterexample: rows spelling a reserved word) and holds on "
               "that witness for the repaired one (roundtrip_nexus_patched_witness).")
 LEVEL_NOTE = ("Trusted: Lean kernel; harness; compress/gzip, xz, bufio, the file system (file round trips are observed on "
-              "the implementation and compared with the in-memory model). Round-trip theorems for Phylip, Clustal, "
-              "the multi-Phylip stream and chains of formats are open (models + correspondence only): see evidence 'partial'.")
+              "the implementation and compared with the in-memory model). Multi-Phylip streams: phylip_multi; chains of "
+              "formats: Props/C11 chain_all_formats. See evidence 'partial'.")
 TECHNIQUE = "Lean 4 proof (induction over rows / chunks for every width) + differential correspondence"
 LEAN_MODULES = ["Gv.Props.C02"]
 REQUIRED_THEOREMS = ["Gv.Props.C02." + n for n in ["roundtrip_fasta", "roundtrip_fasta_go", "roundtrip_stockholm",
                                                      "roundtrip_nexus", "roundtrip_nexus_counterexample", "roundtrip_nexus_patched_witness",
-                                                     "autodetect_selects_written_format"]]
+                                                     "autodetect_selects_written_format", "roundtrip_phylip", "roundtrip_phylip_widths",
+                                                     "roundtrip_clustal", "roundtrip_clustal_harness", "phylip_multi", "phylip_multi_oracle_fuel"]]
 TRUSTED = ["compress/gzip, github.com/ulikunitz/xz, bufio, os (temp files): .gz/.xz round trips are observed, not modelled",
            "version.Version of the harness build is the literal 'Unset' (Clustal header line)"]
 ASSUMPTIONS = ["the property's residue alphabet: IUPAC nucleotide codes ACGTU RYSWKM BDHV N or the 20 amino acids + B Z X, "
@@ -50,9 +55,15 @@ PARTIAL = [
     "spelling a reserved word need the keyword-row repair 2d2dfb5, for the unrepaired parser they are the proved "
     "counter-example roundtrip_nexus_counterexample)",
     "auto-detection: proved (autodetect_selects_written_format: first byte of every writer's output)",
-    "Phylip (strict / one-line / no-block), Clustal: writer + parser models with byte-exact correspondence on every run; "
-    "round-trip theorems stated in Props/C02.lean and OPEN (interleaved blocks of 60/10 and 50 residues)",
-    "multi-Phylip stream and chain-of-formats: modelled in the oracle (folds over the models), theorems open",
+    "Phylip: complete (roundtrip_phylip: all 8 combinations of strict / one-line / no-block, every representable alignment whose "
+    "counts fit int64, every duplicate policy; with the pre-repair allocation from the header count the number of rows must stay "
+    "below 2^27; roundtrip_phylip_widths: the same for every line width and group width > 0)",
+    "Clustal: complete (roundtrip_clustal: every representable alignment whose length fits int64, any alphabet for the "
+    "conservation line, with and without the row-index guard, every version text without \\n, \\r, NUL - with a line break in the "
+    "version text the writer's own header is rejected, kernel-checked example in Props/C02.lean)",
+    "multi-Phylip stream (several alignments in one file, ParseMultiple): complete (phylip_multi: every list of representable "
+    "alignments, all 8 layouts; phylip_multi_oracle_fuel: with the fuel the oracle uses); "
+    "chain-of-formats: Props/C11 chain_all_formats (FASTA, Nexus, Phylip, Clustal)",
     ".gz/.xz files: observed on the implementation only (compression is a trusted external)",
 ]
 
